@@ -184,7 +184,7 @@ fn signature(_e: &Expression, _s: &Expression) -> String {
 fn template(src: &mut Src, cfg: &ExprCfg) -> Expression {
     use quil_rs::expression::InfixOperator::*;
     let small = ExprCfg { max_depth: 1, share_pct: 0, ..*cfg };
-    let mut atom = |src: &mut Src| if src.chance(1, 4) { gx::expr(src, &small) } else { gx::leaf(src, &small) };
+    let atom = |src: &mut Src| if src.chance(1, 4) { gx::expr(src, &small) } else { gx::leaf(src, &small) };
     let x = atom(src);
     let (a, b, c, d) = (atom(src), atom(src), atom(src), atom(src));
     let neg = |e: Expression| gx::prefix(PrefixOperator::Minus, e);
